@@ -220,9 +220,14 @@ def register(props):
                 "non-members in every representation, unit strings (a fixed list plus, for seconds and bytes, every edge string of the "
                 "definition: zero counts in each position, each unit alone, MaxInt64 written with all units, the same plus one base unit "
                 "= 2^63 by the SUM, single components at / beyond the edge, counts beyond int64 - against no bound, a max bound, the float "
-                "reading and an int enum), list/map sizes 0..4 against 7 bound configurations in typed and "
+                "reading and an int enum; and the BLANK and PADDED texts of the definition - white space only (' ', tab, ' \\n ', CR LF, "
+                "VT, FF) and a bare count / zero / one unit / two units with white space in front, behind and on both sides - against "
+                "the int, bounded int, float and int-enum reading (0 admitted), as a leaf, a list item, a map value and a map KEY; the "
+                "same texts against the readings without units and bool), list/map sizes 0..4 against 7 bound configurations in typed and "
                 "untyped containers. c02nest: random nesting (depth 1-3) of those kinds with a valid input (raw in random representations "
-                "+ native, exactly typed or any-typed) and single corruptions of every leaf, key and size. distinct = distinct (schema, "
+                "+ native, exactly typed or any-typed; integer map keys - with and without units - also written as texts that differ "
+                "from the text of their value: '01', '+1', ' 1', '1kB', '1 kilobyte') and single corruptions of every leaf, key and size "
+                "(a blank text among the wrong-type corruptions of every number and bool, leaves and keys). distinct = distinct (schema, "
                 "operation, value); non-trivial = the schema declares a constraint or the operation is Unserialize of a raw form",
         "assumptions": ["integers inside raw values lie in the range of their Go type (go_val)",
                         "user patterns are matched by the modelled matcher (Regex.v; the generator's pattern pool); regexp.Compile for "
